@@ -46,7 +46,7 @@ def cases(tier, seed):
     for s, m in ([('ring4', 1), ('sc5', 1), ('sc5b', 1)] if q else [(s, m) for s in ('ring4', 'sc5', 'sc5b', 'ring4_chord') for m in (1, 2)]):
         add(fn='randmio_dir_connected', kind='conn', n=4, sup=s, support=c01.dir_from_arcs(4, c01.D4[s]), iters=m, weight=10 * m, shard_depth=8 if m > 1 else None)
     for p in c01._perms(4, seed, 2 if q else 8):
-        extra = dict(draws=1 + 4 * 4, fork_int=True, shard_depth=24) if q else dict(fork_int=True, shard_depth=24)
+        extra = dict(draws=1 + 4 * 3, fork_int=True, shard_depth=24) if q else dict(fork_int=True, shard_depth=24)
         add(fn='latmio_und_connected', kind='conn_lat', n=4, sup='P4', support=c01.und_from_edges(4, c01.U4['P4']), iters=1, perm=p, weight=100,
             name='latmio_und_connected/conn/P4/perm' + ''.join(map(str, p)), **extra)
     if not q:
